@@ -89,6 +89,33 @@ Theorem C11_thin_raw_form_is_block_start_not_value_address :
    nth 1 (snd r) [] = [0; 0; 0; 99999999] /\ nth 3 (snd r) [] = [0; 0; 8; 99999999]).
 Proof. split; [reflexivity|vm_compute; split; reflexivity]. Qed.
 
+(** Wherever the crate itself turns a raw pointer back into an owning handle or a borrow (Arc::from_raw,
+    from_raw_slice, ThinArc::from_raw, ArcBorrow::from_ptr, an ArcBorrow built by hand), the pointer is the one a handle
+    or borrow STORES (possibly cast, masked or offset) or the caller's own pointer passed on - never one derived from a
+    reference to the value, which has no provenance over the reference count in front of it (the crate's safety
+    comment on ArcBorrow::from_ptr).  The table is read from the source on every run (tools/extract.py extract_prov); the
+    list of sites is closed.  (Found wanting on the pinned tree: ArcUnion::drop, defect F4.) *)
+Definition expected_raw_sinks : list (string * string * string) :=
+    ([("arc.rs", "Arc::borrow_arc", "ArcBorrow(..)");
+     ("arc.rs", "Arc::from_raw_offset", "Arc::from_raw");
+     ("arc.rs", "Arc::from_raw_slice", "Arc::from_raw");
+     ("arc_borrow.rs", "ArcBorrow::clone_arc", "Arc::from_raw");
+     ("arc_borrow.rs", "ArcBorrow::from_ptr", "ArcBorrow(..)");
+     ("arc_borrow.rs", "ArcBorrow::replace_ptr", "ArcBorrow(..)");
+     ("arc_borrow.rs", "ArcBorrow::with_arc", "Arc::from_raw");
+     ("arc_swap_support.rs", "Arc::from_ptr", "Arc::from_raw");
+     ("arc_swap_support.rs", "ThinArc::from_ptr", "ThinArc::from_raw");
+     ("arc_union.rs", "ArcUnion::borrow", "ArcBorrow::from_ptr");
+     ("arc_union.rs", "ArcUnion::borrow", "ArcBorrow::from_ptr");
+     ("arc_union.rs", "ArcUnion::drop", "Arc::from_raw");
+     ("arc_union.rs", "ArcUnion::drop", "Arc::from_raw");
+     ("offset_arc.rs", "OffsetArc::borrow_arc", "ArcBorrow(..)");
+     ("offset_arc.rs", "OffsetArc::with_arc", "Arc::from_raw")])%string.
+Theorem C11_handles_are_rebuilt_from_stored_pointers :
+  map (fun s => fst s) Extracted.raw_sinks = expected_raw_sinks /\
+  forallb (fun s => prov_full (snd s)) Extracted.raw_sinks = true.
+Proof. split; vm_compute; reflexivity. Qed.
+
 Check C11_from_raw_undoes_into_raw.
 Print Assumptions C11_from_raw_undoes_into_raw.
 Print Assumptions C11_value_address.
@@ -98,3 +125,4 @@ Print Assumptions C11_thin_and_fat_offsets_agree.
 Print Assumptions C11_handles_are_one_word.
 Print Assumptions C11_address_observation.
 Print Assumptions C11_thin_raw_form_is_block_start_not_value_address.
+Print Assumptions C11_handles_are_rebuilt_from_stored_pointers.
